@@ -309,6 +309,7 @@ func checkC05(c *Check) {
 	// that the store could not destroy is reported as an error by the store (C09.R5), which stops the redirect (R2)
 	headersOwnBacking(c, "C05.R5", R)
 	storesReportFailedRemoval(c, "C05.R2")
+	cookieDecoderComplete(c, "C05.R2")
 
 	// ---- R6: the cookie call under LogoutMatch true has timeout 0 and a constant value
 	found := false
@@ -366,4 +367,72 @@ func checkC05(c *Check) {
 		c.Obl(without == 0, "C05.R6", "logout-answer-always-expires/"+nthCallKey(ci), P.Pos(ci.Pos()), "every object that can be the logout answer received the expiring cookie",
 			fmt.Sprintf("the logout answer can be an object that never received the expiring Set-Cookie (%d of %d possible objects): the cookie survives the logout", without, with+without))
 	}
+}
+
+// cookieDecoderComplete: the function that turns the Cookie header into a map considers every cookie of
+// the header. The header parameter is split only by an unbounded splitter (strings.Split, or SplitN /
+// SplitAfterN with a negative count — a positive count leaves the tail of the header in the last piece,
+// which then is no Name=Value pair), the map is filled inside the loop over the pieces, and the loop is
+// never left by a return (the function returns only after all pieces were looked at).
+func cookieDecoderComplete(c *Check, rule string) {
+	P := c.P
+	dec := P.Func(pkgHTTP, "DecodeCookiesHeader")
+	if !c.Anchor(rule, "DecodeCookiesHeader", dec != nil) {
+		return
+	}
+	if len(dec.Params) == 0 {
+		c.Fail(rule, "cookie-decoder-sees-every-cookie", P.Pos(dec.Pos()), "the cookie decoder has no header parameter")
+		return
+	}
+	hdr := dec.Params[0]
+	nSplit, bad := 0, ""
+	for _, ci := range allCalls(dec) {
+		cc, ok := ci.(*ssa.Call)
+		if !ok || cc.Common().StaticCallee() == nil || cc.Common().StaticCallee().Pkg == nil || cc.Common().StaticCallee().Pkg.Pkg.Path() != "strings" {
+			continue
+		}
+		args := cc.Common().Args
+		if len(args) == 0 {
+			continue
+		}
+		onHeader := false
+		for _, l := range Leaves(args[0], leafOpts{noConcat: true}) {
+			if resolveCell(stripConv(l)) == ssa.Value(hdr) {
+				onHeader = true
+			}
+		}
+		if !onHeader {
+			continue
+		}
+		switch name := cc.Common().StaticCallee().Name(); name {
+		case "Split", "SplitAfter", "SplitSeq", "FieldsFunc", "FieldsFuncSeq":
+			nSplit++
+		case "SplitN", "SplitAfterN":
+			nSplit++
+			if n, isC := constInt(args[len(args)-1]); !isC || n >= 0 {
+				bad = "the header is split with a bounded strings." + name + " at " + posOf(P, cc) + ": cookies beyond the bound stay in the last piece and are ignored"
+			}
+		}
+	}
+	_ = nSplit // a decoder that walks the header with strings.Cut / Index in a loop has no split call at all
+	// filled inside a loop; no return from inside a loop
+	filled := false
+	for _, b := range dec.Blocks {
+		for _, ins := range b.Instrs {
+			switch x := ins.(type) {
+			case *ssa.MapUpdate:
+				if inLoop(b) {
+					filled = true
+				}
+			case *ssa.Return:
+				if inLoop(b) && bad == "" {
+					bad = "the decoder returns from inside the loop over the cookies at " + posOf(P, x)
+				}
+			}
+		}
+	}
+	if !filled && bad == "" {
+		bad = "the cookie map is not filled inside the loop over the pieces of the header"
+	}
+	c.Obl(bad == "", rule, "cookie-decoder-sees-every-cookie", P.Pos(dec.Pos()), "the Cookie header is split completely and every piece is considered", "the cookie decoder can ignore a cookie that was presented: "+bad)
 }
